@@ -123,7 +123,8 @@ def clean (s : St) : Bool :=
     get closes s = 1 && get mu s = 0 && get gErr s = 0
 
 /-- the signal came before `signal.Notify`: the process was killed by the default disposition, nothing was closed -/
-def killedEarly (s : St) : Bool := get killed s = 1 && get closes s = 0 && get notify s = 0
+def killedEarly (s : St) : Bool :=
+  get killed s = 1 && get closes s = 0 && get notify s = 0 && get sigAfterPublish s = 0
 
 /-- F26a: `Shutdown` found no server, the goroutine that listens for signals is gone, the server serves for ever -/
 def stuckServing (s : St) : Bool :=
